@@ -76,6 +76,33 @@ theorem new_client_stores_root {cfg : Config} {primary : Prov} {witnesses : List
     (hnew : newClient cfg primary witnesses sched period height root = .ok c0) :
     ∀ b ∈ c0.store.blocks, Reach cfg root b := (newClient_inv hnew).2.1
 
+/-- one link of a trust chain: a valid forward step at some local time, a backward hash link, or
+re-labelling by header hash -/
+inductive Link (cfg : Config) : LightBlock → LightBlock → Prop
+  | fwd (a b : LightBlock) (now : Int) : ValidStep cfg now a b → Link cfg a b
+  | back (a b : LightBlock) : BackStep a b → Link cfg a b
+  | same (a b : LightBlock) : b.hash = a.hash → Link cfg a b
+
+/-- reachability read literally: there is a chain of links from a block carrying the trust-root
+hash to the block -/
+theorem reach_chain {cfg : Config} {root : Hash} {b : LightBlock} (h : Reach cfg root b) :
+    ∃ l : List LightBlock, (∃ b0, l.head? = some b0 ∧ b0.hash = root) ∧ l.getLast? = some b ∧
+      Chain (Link cfg) l := by
+  induction h with
+  | root b hb => exact ⟨[b], ⟨b, rfl, hb⟩, rfl, trivial⟩
+  | fwd a b now _ hs ih =>
+    obtain ⟨l, ⟨b0, h0, hr⟩, hl, hc⟩ := ih
+    exact ⟨l ++ [b], ⟨b0, by rw [head?_append_of_getLast? hl]; exact h0, hr⟩, by simp,
+      chain_append l a b hc hl (Link.fwd a b now hs)⟩
+  | back a b _ hs ih =>
+    obtain ⟨l, ⟨b0, h0, hr⟩, hl, hc⟩ := ih
+    exact ⟨l ++ [b], ⟨b0, by rw [head?_append_of_getLast? hl]; exact h0, hr⟩, by simp,
+      chain_append l a b hc hl (Link.back a b hs)⟩
+  | same a b _ hs ih =>
+    obtain ⟨l, ⟨b0, h0, hr⟩, hl, hc⟩ := ih
+    exact ⟨l ++ [b], ⟨b0, by rw [head?_append_of_getLast? hl]; exact h0, hr⟩, by simp,
+      chain_append l a b hc hl (Link.same a b hs)⟩
+
 /-! ## the detector -/
 
 /-- **detector_confirms_only_identical.** If the cross-check succeeds then some current witness
